@@ -26,6 +26,7 @@ func init() {
 }
 
 func runC37(c *eng.Ctx) {
+	defer runC37Ref(c)
 	p := c.P
 	commit, rollback := eng.OnVar("app", "Commit"), eng.OnVar("app", "Rollback")
 	appendAny := eng.OnVar("app", "append")
